@@ -324,8 +324,10 @@ func (f *File) AddChild(child Box, boxStartPos uint64) {
 				f.Mdat = box
 			}
 		} else {
-			currentFragment := f.LastSegment().LastFragment()
-			currentFragment.AddChild(box)
+			// Without a preceding moof there is no fragment to add the mdat to. It is only kept in Children.
+			if seg := f.LastSegment(); seg != nil && seg.LastFragment() != nil {
+				seg.LastFragment().AddChild(box)
+			}
 		}
 	case *MfraBox:
 		f.Mfra = box
